@@ -70,7 +70,7 @@ impl Check for C04 {
         "completion"
     }
     fn cases(&self, tier: Tier) -> usize {
-        tier.pick(12_000, 300_000)
+        tier.pick(120_000, 2_000_000)
     }
     fn strategy(&self, _tier: Tier) -> BoxedStrategy<Case> {
         let c = cfg();
@@ -282,7 +282,7 @@ impl Check for Refusal {
         "refusal"
     }
     fn cases(&self, tier: Tier) -> usize {
-        tier.pick(8_000, 200_000)
+        tier.pick(60_000, 800_000)
     }
     fn strategy(&self, _tier: Tier) -> BoxedStrategy<RefusalCase> {
         let c = cfg();
